@@ -94,6 +94,10 @@ func vrfLoadCex() {
 }
 
 func vrfNext(tag, kind string) string {
+	// values of engine-internal inputs (the modelled clock) are not consumed natively
+	for vrfState.pos < len(vrfState.cex.Model) && vrfState.cex.Model[vrfState.pos].Tag == "time.Now" {
+		vrfState.pos++
+	}
 	if vrfState.pos >= len(vrfState.cex.Model) {
 		vrfState.desync++
 		switch kind {
